@@ -59,7 +59,7 @@ def run(ctx):
         if d is None:
             return name in ("write", "pwrite", "fwrite") and False
         return wev.key in {g.key for g in prog.reachable_fns([d])}
-    ex = absint.Explorer(prog, effects=eff, inline=lambda n, d: False, loop_bound=2,
+    ex = absint.Explorer(prog, effects=eff, auto_inline=False, loop_bound=2,
                          summaries={"json_value_get_object": lambda ex_, st, args, f, e: [(PTR("META"), {})]})
     store = {(RT, F("ovni_rthread", "ready")): INT(1), (RT, F("ovni_rthread", "finished")): INT(0)}
     outs = [o for o in ex.run(tf, [], store) if o.kind in ("ret", "exit")]
